@@ -79,7 +79,7 @@ for (k0, d0, k1, d1, n1) in ((2, S(2), 2, S(3), 0), (2, S(6), 2, S(6), 0), (2, S
                              (2, S(3), 4, S(3), 1), (0, S(0), 4, G64, -3), (3, 20, 4, S(2), 3)):
     rc.append((k0, d0, k1, d1, n1))
 rc = [c for c in rc if c[1] not in (G63, G64, G32) and c[3] not in (G63, G32) and not (c[2] == 2 and c[3] == G64)]
-ob("rat.compare", "VerifC05XRatCompare", rc[0:4] + rc[-2:], rc,
+ob("rat.compare", "VerifC05XRatCompare", rc[0:5] + rc[-2:], rc,
    "= /= < <= > >= and max/min on ratio x ratio, ratio x fixnum, ratio x bignum pairs in both orders: exactly one of < = > holds, every comparison agrees with the exact values, max/min return the right value, operands unchanged. A bignum next to a ratio is concrete (grid): slip converts that pair to long floats, which the engine only runs on concrete values." + RATNOTE, carves=["C05-bignum-with-ratio-goes-float"], int_mode=True)
 ru = []
 for fn in range(3, 9):
